@@ -328,15 +328,50 @@ func c20Chain(n, levels int) string {
 	return b.String()
 }
 
+// Inputs in which every macro is declared with one value: references at the
+// start, in the middle and at the end of an argument, in quoted strings, in
+// block headers and in the values of other macros. The accepted tree contains
+// no reference at all and every argument that had one contains the value.
+var c20AllDeclared = []string{
+	"$(host) = mx.example.org\ntls $(host)/privkey.pem\nlisten $(host):25\ngreeting \"$(host) ESMTP ready\"\nmid /etc/$(host)/x\nend postmaster@$(host)\nwhole $(host)\n",
+	"$(host) = mx.example.org\n$(certs) = $(host)/certs\nuse $(certs)\nuse2 pre/$(certs)\n",
+	"$(host) = mx.example.org\nblock $(host)/a x$(host) {\n inner $(host).x\n deeper {\n  leaf $(host)-y\n }\n}\n",
+	"$(a) = mx.example.org\n$(b) = $(a)\ndir $(b)$(a) $(a)$(b)z\n",
+}
+
+func c20NoReference(nodes []Node) {
+	for _, n := range nodes {
+		for _, a := range n.Args {
+			if strings.Contains(a, "$(") {
+				verifLog("argument", a)
+				verifFail("C20.macro-reference-left-unexpanded")
+			}
+			if !strings.Contains(a, "mx.example.org") {
+				verifLog("argument", a)
+				verifFail("C20.macro-value-missing")
+			}
+		}
+		c20NoReference(n.Children)
+	}
+}
+
 func harness_C20_concrete() {
 	inputs := append([]string{}, c20Concrete...)
 	inputs = append(inputs, c20Chain(2, 100), c20Chain(3, 200), c20Chain(4, 150))
+	inputs = append(inputs, c20AllDeclared...)
 	k := nondetChoice("input", len(inputs))
 	nodes, err := Read(bytes.NewReader([]byte(inputs[k])), "verif.conf")
 	if err != nil {
+		if k >= len(inputs)-len(c20AllDeclared) {
+			verifFail("C20.valid-configuration-refused")
+		}
 		verifCover("C20.concrete-error")
 		return
 	}
 	c20CheckTree(nodes, 1)
+	if k >= len(inputs)-len(c20AllDeclared) {
+		c20NoReference(nodes)
+		verifCover("C20.concrete-all-declared")
+	}
 	verifCover("C20.concrete-tree")
 }
